@@ -727,8 +727,11 @@ func (root *Root) resolveFragRef(
 	result map[string]interface{},
 	depth int) (ea []error) {
 
+	if depth <= 0 {
+		return []error{resWarn(sel.line, sel.col, "maximum resolve depth reached in fragment %s", sel.Fragment.Name)}
+	}
 	if sel.Fragment.Condition == nil || sel.Fragment.Condition == t {
-		ea = root.resolveSels(obj, vars, sel.Fragment.Sels, t, result, depth)
+		ea = root.resolveSels(obj, vars, sel.Fragment.Sels, t, result, depth-1)
 		if 0 < len(ea) {
 			Errors(ea).in(fmt.Sprintf("fragment at %d:%d", sel.Line(), sel.Column()))
 		}
